@@ -411,6 +411,7 @@ impl Sess {
                 world::bump("peer_stall");
                 self.stalled = true;
                 self.end.set_capacity(0);
+                world::log(Ev::Fault { kind: "stall-begin".into(), detail: self.end.conn.to_string() });
                 let now = self.now();
                 self.schedule(now + ms, Action::Unstall);
             }
@@ -485,6 +486,7 @@ impl Sess {
             Action::Unstall => {
                 self.stalled = false;
                 self.end.set_capacity(1 << 20);
+                world::log(Ev::Fault { kind: "stall-end".into(), detail: self.end.conn.to_string() });
             }
             Action::CloseFin => {
                 note(&self.plan.name, "fin".into());
